@@ -429,3 +429,40 @@ class normalize(Contract):
         if isinstance(name, BufSeq):
             return name.copy()
         return BufSeq.fresh(cx.run, 'normalized', 'memoryview')
+
+
+# ----------------------------------------------------------------------------- typed-number wrappers (C09, C19, C16)
+def _num_wrapper(fn_, typ_, pname):
+    class _C(Contract):
+        fn = fn_
+        props = ('C09', 'C19', 'C16')
+        exact_raises = True
+        doc = (f'Component.{fn_.__name__}(n) is the typed number component of type {typ_}: shortest type number, smallest legal integer '
+               f'width, big-endian value n; struct.error exactly for n outside 0 .. 2^64-1')
+        raises = {struct.error: lambda cx, **p: Or(zint(p[pname]) < 0, zint(p[pname]) >= M64)}
+
+        def setup(self, cx):
+            return {pname: cx.run.input_int(pname)}
+
+        def post(self, cx, result, **p):
+            val = p[pname]
+            if not (isinstance(result, View) and result.kind == 'bytearray'):
+                return {'is_bytearray': False}
+            h = cx.heap
+            tn, w = tlsize(typ_), uint_width(val)
+            return {'length': Eq(result.length, tn + 1 + w),
+                    'type_number': tlenc_at(h, result, 0, typ_),
+                    'length_byte': result.at(h, tn) == w,
+                    'value': Or(*[And(w == k, be(h, result, tn + 1, k) == val) for k in (1, 2, 4, 8)])}
+
+        def build(self, i):
+            return (i[pname],), {}
+    _C.__name__ = fn_.__name__
+    return contract(_C)
+
+
+_num_wrapper(Component.from_segment, Component.TYPE_SEGMENT, 'segment')
+_num_wrapper(Component.from_byte_offset, Component.TYPE_BYTE_OFFSET, 'offset')
+_num_wrapper(Component.from_sequence_num, Component.TYPE_SEQUENCE_NUM, 'seq_num')
+_num_wrapper(Component.from_version, Component.TYPE_VERSION, 'version')
+_num_wrapper(Component.from_timestamp, Component.TYPE_TIMESTAMP, 'timestamp')
